@@ -827,3 +827,175 @@ _REG.loops[(WMS + 'WMSServer.featureinfo', 0)]['body_trace'] = [_fi_collect_laye
 _REG.loops[(WMS + 'WMSServer.featureinfo', 0)]['raise_trace'] = [_fi_not_queryable]
 _REG.loops[(WMS + 'WMSServer.featureinfo', 2)]['body_trace'] = [_fi_info_list_grows]
 _REG.loops[(WMS + 'WMSServer.featureinfo', 3)]['body_trace'] = list(_REG.loops[(WMS + 'WMSServer.featureinfo', 3)]['body_trace']) + [_fi_info_collected]
+
+
+# ======================================================================================================================
+# WMS capabilities: denied layers are not advertised
+# ======================================================================================================================
+def _cap_decision(ex, st, post, result):
+    import z3
+    from pyvc.values import VStr
+    h = st.heap[post.env['self'].ref]
+    cb = [e for e in st.trace if e.kwargs and 'environ' in e.kwargs and e.name not in ('FilteredRootLayer',)]
+    frl = [e for i, e in T.evs(st, 'FilteredRootLayer')]
+    unfiltered = result is h['root_layer'] or (hasattr(result, 't') and hasattr(h['root_layer'], 't') and result.t.eq(h['root_layer'].t))
+    if not cb:
+        ins = [e for i, e in T.evs(st, 'contains')]
+        yield ('cap_unfiltered_without_callback_only_if_not_configured',
+               z3.And(z3.BoolVal(bool(unfiltered and ins)), *[z3.Not(e.result.t) for e in ins]),
+               "without asking, the complete layer tree is advertised only when no 'mapproxy.authorize' callback is configured")
+        return
+    c = cb[-1]
+    a0 = c.args[0] if c.args else None
+    yield ('cap_callback_asked_about_capabilities',
+           z3.BoolVal(isinstance(a0, VStr) and a0.conc() == 'wms.capabilities' and c.kwargs['environ'] is post.env['env']),
+           "the callback is asked about 'wms.capabilities' with the request environment")
+    full = _item_is(c.result.t, 'authorized', 'full', st.epoch)
+    partial = _item_is(c.result.t, 'authorized', 'partial', st.epoch)
+    from pyvc.values import opaque_eq_str as _oes
+    ep_ = getattr(c, 'pre_epoch', 0) + 1
+    f_ = z3.Function('opaque_item_%s_%d' % (abs(hash(('s', 'authorized'))), ep_), c.result.t.sort(), c.result.t.sort())
+    yield ('cap_unauthenticated_never_served', z3.Not(_oes(f_(c.result.t), z3.StringVal('unauthenticated'))),
+           "no capabilities document after authorized == 'unauthenticated' (that answer raises RequestError 401)")
+    if unfiltered:
+        yield ('cap_complete_tree_only_if_full', full, "the complete layer tree is advertised only for authorized == 'full'")
+        return
+    ok = len(frl) == 1 and result is frl[0].result and len(frl[0].args) == 2 and \
+        (frl[0].args[0] is h['root_layer'] or frl[0].args[0].t.eq(h['root_layer'].t)) and 'coverage' in frl[0].kwargs
+    g = z3.And(z3.BoolVal(bool(ok)), partial)
+    if ok:
+        # the permissions handed to the filter are the callback's result['layers']
+        perms = frl[0].args[1]
+        g = z3.And(g, z3.Or([perms.t == z3.Function('opaque_item_%s_%d' % (abs(hash(('s', 'layers'))), ep), c.result.t.sort(), c.result.t.sort())(c.result.t)
+                             for ep in range(0, st.epoch + 1)]))
+        lim = [e for i, e in T.evs(st, 'load_limited_to')]
+        gets = [e for i, e in T.evs(st, 'get') if e.args and isinstance(e.args[0], VStr) and e.args[0].conc() == 'limited_to']
+        cov = frl[0].kwargs['coverage']
+        if lim:
+            g = z3.And(g, z3.BoolVal(len(lim) == 1 and len(gets) == 1 and lim[0].args[0] is gets[0].result and
+                                     (cov is lim[0].result or getattr(cov, 'val', None) is lim[0].result)), ex.truth(st, gets[0].result))
+        else:
+            g = z3.And(g, z3.BoolVal(len(gets) == 1), z3.Not(ex.truth(st, gets[0].result)) if gets else z3.BoolVal(False))
+    yield ('cap_partial_goes_through_the_filter', g,
+           "for authorized == 'partial' the tree is wrapped in FilteredRootLayer(root_layer, result['layers'], coverage=<the "
+           "request-wide limit, if any>); every other answer is refused")
+
+
+contract(WMS + 'WMSServer.authorized_capability_layers', props=['C10'],
+         types=dict(env='opaque'), returns='opaque', default_callee='opaque', raises={'RequestError': True},
+         opaque_spec={'get': {'pure': True}, 'load_limited_to': {'pure': True}, 'keys': {'pure': True}, 'FilteredRootLayer': {'pure': True}},
+         trace=[_cap_decision])
+
+
+cls(WMS + 'FilteredRootLayer', fields=dict(root_layer='opaque', permissions='opaque', coverage='opt[opaque]'))
+
+
+def _perm_lookup(st, perms, name_t, key):
+    """the events permissions.get(<name>, {}).get(key, ...) -> list of the inner get events"""
+    from pyvc.values import VStr
+    outer = [e for i, e in T.evs(st, 'get') if e.recv is not None and hasattr(perms, 't') and e.recv.t.eq(perms.t) and e.args
+             and hasattr(e.args[0], 't') and e.args[0].t.eq(name_t)]
+    inner = []
+    for o in outer:
+        inner += [e for i, e in T.evs(st, 'get') if e.recv is not None and hasattr(o.result, 't') and e.recv.t.eq(o.result.t) and e.args
+                  and isinstance(e.args[0], VStr) and e.args[0].conc() == key]
+    return inner
+
+
+def _layer_permitted_spec(ex, st, post, result):
+    import z3
+    h = st.heap[post.env['self'].ref]
+    layer = post.env['layer']
+    name = ex.opaque_field_at(st, st.trace[0], layer, 'name') if st.trace else ex.opaque_field(st, layer, 'name')
+    res = ex.truth(st, result)
+    maps = _perm_lookup(st, h['permissions'], name.t, 'map')
+    g = z3.BoolVal(len(maps) >= 1)
+    if maps:
+        m = maps[0]
+        g = z3.And(g, ex.truth(st, m.result), z3.BoolVal(len(m.args) == 2), z3.Not(ex.truth(st, m.args[1])) if len(m.args) == 2 else z3.BoolVal(False))
+    yield ('advertised_only_with_map_permission', z3.Implies(res, g),
+           "a layer is advertised only if permissions[layer.name]['map'] is set (a missing entry counts as not permitted)")
+    lims = _perm_lookup(st, h['permissions'], name.t, 'limited_to')
+    inter = [e for i, e in T.evs(st, 'intersects')]
+    g2 = z3.BoolVal(True)
+    for e in inter:
+        g2 = z3.And(g2, ex.truth(st, e.result))
+    cov = h['coverage']
+    own = [e for e in inter if e.recv is not None and hasattr(cov, 'val') and e.recv.t.eq(cov.val.t)]
+    g2 = z3.And(g2, z3.Implies(ex.truth(st, cov), z3.BoolVal(len(own) == 1)))
+    from pyvc.values import eq as _eqv
+    for e in inter:
+        ext = ex.opaque_field_at(st, e, layer, 'extent')
+        g2 = z3.And(g2, z3.BoolVal(len(e.args) == 2), _eqv(e.args[0], ex.opaque_field_at(st, e, ext, 'bbox')) if len(e.args) == 2 else z3.BoolVal(False),
+                    _eqv(e.args[1], ex.opaque_field_at(st, e, ext, 'srs')) if len(e.args) == 2 else z3.BoolVal(False))
+    if lims:
+        ll = [e for i, e in T.evs(st, 'load_limited_to')]
+        g2 = z3.And(g2, z3.Implies(ex.truth(st, lims[0].result), z3.BoolVal(len(ll) == 1 and ll[0].args[0] is lims[0].result and
+                                                                          any(e.recv is not None and e.recv.t.eq(ll[0].result.t) for e in inter))))
+    yield ('advertised_only_if_inside_its_limits', z3.Implies(res, g2),
+           'a layer with a per-layer limit and/or under a request-wide limit is advertised only if its extent intersects them')
+
+
+contract(WMS + 'FilteredRootLayer.layer_permitted', props=['C10'],
+         types=dict(layer='opaque'), returns='bool', default_callee='opaque',
+         opaque_fields={'name': 'opaque', 'extent': 'opaque', 'bbox': 'opaque', 'srs': 'opaque'}, stable_fields=['name', 'extent', 'bbox', 'srs'],
+         opaque_spec={'get': {'pure': True}, 'load_limited_to': {'pure': True}, 'intersects': {'returns': 'bool', 'pure': True}},
+         trace=[_layer_permitted_spec])
+
+
+def _filtered_children(ex, st, k):
+    import z3
+    evs_ = st.trace[getattr(st, 'iter_start_trace', 0):]
+    pre = st.iter_start_state
+    layer = st.env['layer']
+    h = st.heap[st.env['self'].ref]
+    lp = [e for e in evs_ if e.name in ('layer_permitted', 'FilteredRootLayer.layer_permitted')]
+    mk = [e for e in evs_ if e.name == 'FilteredRootLayer']
+    ap = [e for e in evs_ if e.name == 'append']
+    named = ex.truth(st, ex.opaque_field(pre, layer, 'name'))
+    g = z3.BoolVal(len(lp) <= 1 and len(mk) <= 1 and len(ap) <= len(mk))
+    for e in lp:
+        a = [x for x in e.args if getattr(x, 'ref', None) != st.env['self'].ref]
+        g = z3.And(g, z3.BoolVal(len(a) == 1 and a[0] is layer))
+    # a NAMED child reaches the advertised list only through layer_permitted(child) == True
+    if mk:
+        g = z3.And(g, z3.Or(z3.Not(named), z3.And(z3.BoolVal(len(lp) == 1), ex.truth(st, lp[0].result) if lp else z3.BoolVal(False))))
+        m = mk[0]
+        okm = len(m.args) == 3 and m.args[0] is layer and (m.args[1] is h['permissions']) and (m.args[2] is h['coverage'])
+        g = z3.And(g, z3.BoolVal(bool(okm)))
+    for e in ap:
+        g = z3.And(g, z3.BoolVal(bool(mk) and e.args[-1] is mk[0].result))
+    yield ('child_advertised_only_if_permitted_and_filtered_itself', g,
+           'a named child layer is advertised only if layer_permitted(child) holds, and then as a FilteredRootLayer over that '
+           'child with the same permissions and request-wide limit (so its own children are filtered the same way); group '
+           'layers without a name are kept only as filtered wrappers')
+
+
+contract(WMS + 'FilteredRootLayer.layers', props=['C10'],
+         types={}, returns='list[opaque]', default_callee='opaque',
+         opaque_fields={'name': 'opaque', 'layers': 'list[opaque]', 'is_active': 'opaque'}, stable_fields=['name', 'layers'],
+         opaque_spec={'layer_permitted': {'returns': 'bool', 'pure': True}, 'FilteredRootLayer': {'pure': True}},
+         opaque=['layer_permitted', 'FilteredRootLayer'],
+         loops={0: dict(inv=[], types={'layers': 'list[opaque]'}, body_trace=[_filtered_children])})
+
+
+def _filtered_queryable(ex, st, post, result):
+    import z3
+    h = st.heap[post.env['self'].ref]
+    root = h['root_layer']
+    res = ex.truth(st, result)
+    q = ex.truth(st, ex.opaque_field(st, root, 'queryable'))
+    name = ex.opaque_field(st, root, 'name')
+    fi = _perm_lookup(st, h['permissions'], name.t, 'featureinfo')
+    ok_fi = z3.BoolVal(False)
+    if fi:
+        ok_fi = z3.And(ex.truth(st, fi[0].result), z3.BoolVal(len(fi[0].args) == 2), z3.Not(ex.truth(st, fi[0].args[1])) if len(fi[0].args) == 2 else z3.BoolVal(False))
+    yield ('queryable_only_with_featureinfo_permission', z3.Implies(res, z3.And(q, z3.Or(z3.Not(ex.truth(st, name)), ok_fi))),
+           "a named layer is advertised as queryable only if the layer is queryable and permissions[name]['featureinfo'] is set")
+
+
+contract(WMS + 'FilteredRootLayer.queryable', props=['C10'],
+         types={}, returns='bool', default_callee='opaque',
+         opaque_fields={'name': 'opaque', 'queryable': 'opaque'}, stable_fields=['name', 'queryable'],
+         opaque_spec={'get': {'pure': True}},
+         trace=[_filtered_queryable])
